@@ -10,10 +10,11 @@
 EXTENDS Fixer, Json
 
 CONSTANT Export
-RespKinds == {"absent", "described", "emptydesc", "nodesc", "ref", "docref"}
+RespKinds == {"absent", "described", "blankdesc", "emptydesc", "nodesc", "ref", "docref"}
 OpKinds   == {"noop", "noresponses", "responses"}
 MkResp(k) ==
   CASE k = "described" -> Mk([description |-> "ok"], <<>>)
+    [] k = "blankdesc" -> Mk([description |-> " "], <<>>)          \* whitespace only: a description nonetheless
     [] k = "emptydesc" -> Mk([description |-> ""], [schema |-> Mk([type |-> "string"], <<>>)])
     [] k = "nodesc"    -> Mk(<<>>, [schema |-> Mk([type |-> "integer"], <<>>)])
     [] k = "ref"       -> Mk(("$ref" :> <<"root", "responses", "N_1">>), <<>>)
